@@ -68,7 +68,7 @@ def run(ctx):
     for f in glob.glob(os.path.join(wd, "recs*")) + glob.glob(os.path.join(wd, "cases*")):
         os.remove(f)
     exe = build.build("c08_match", ["c08_match.cpp"], ["ebus", "utils"])
-    sample = 12000 if ctx.thorough else 0
+    sample = 8000 if ctx.thorough else 0
     t0 = time.time()
     if ctx.replay_path:      # re-run one recorded case instead of generating the domain
         with open(ctx.replay_path) as f:
